@@ -10,6 +10,7 @@ against a World through edgegraph's public API only.
                                       history a valid history for shrinking)
 """
 
+import collections.abc
 import io
 
 import egsim  # noqa: F401
@@ -108,7 +109,9 @@ class Exec:
             return [self.norm(x) for x in val]
         if isinstance(val, (set, frozenset)):
             return {"set": sorted(str(self.norm(x)) for x in val)}
-        if isinstance(val, dict):
+        if isinstance(val, type):
+            return f"<{val.__name__}>"
+        if isinstance(val, collections.abc.Mapping):
             return {str(self.norm(k)): self.norm(v) for k, v in val.items()}
         if hasattr(val, "__next__"):
             return [self.norm(x) for x in val]
